@@ -50,7 +50,7 @@ M_LO, M_HI = 1e-4, 6.0
 # Judged are the paths from the first point to every segment boundary (the classical "osmotic coefficient from activity
 # coefficients by Gibbs-Duhem integration" test at 18 end points).  A single short segment is not judged on its own: at a
 # stationary point of the activity coefficients (gamma+- minimum of KCl near 2.3 m) both sides of the relation and the total
-# variation vanish together and a relative residual is meaningless (calibration: see the report in evidence `calibration`).
+# variation vanish together and a relative residual is meaningless (calibration: see `calibration_notes` in the evidence).
 SEG_Q, SEG_T = 64, 192                    # fine steps per segment, quick / thorough (Romberg over h, 2h, 4h)
 SEG_Q_SIT, SEG_T_SIT = 32, 64             # the same for sit.dat (2 ms per solution instead of 0.2 ms)
 DIL_SEGS = 18                   # segments per dilution path
